@@ -96,7 +96,10 @@ impl Alphanumeric for String {
     }
 
     fn _rsplit(&self, sep: Self, max_split: Option<usize>) -> List<Self> {
-        List(self.chars().rev().collect::<Self>()._split(sep, max_split).0.reverse_ext())
+        let result: Vec<&str> = max_split.map_or_else(
+            || str::rsplit(self, &sep).collect(),
+            |split| self.rsplitn(split.max(1), &sep).collect());
+        List(result.into_iter().map(ToString::to_string).collect::<Vec<Self>>().reverse_ext())
     }
 
     fn _splitlines(&self, keep_ends: bool) -> List<Self> {
